@@ -12,6 +12,7 @@ import (
 	"github.com/khirono/go-nl"
 
 	"github.com/free5gc/go-upf/internal/forwarder"
+	"github.com/free5gc/go-upf/internal/pfcp"
 	"github.com/free5gc/go-upf/internal/verif/evid"
 	"github.com/free5gc/go-upf/internal/verif/netx"
 	"github.com/free5gc/go-upf/internal/verif/simk"
@@ -32,13 +33,14 @@ type World struct {
 }
 
 func New(maxRetrans uint8) *World {
+	pfcp.VQuietLog()
 	blk := netx.Get()
 	if gnb == nil {
 		gnb = netx.Listen(blk.IP(9), 2152)
 	}
 	gnb.Drain()
 	w := &World{K: simk.New(), GNB: gnb}
-	udp, err := net.ListenUDP("udp4", &net.UDPAddr{IP: blk.IP(1), Port: 2152})
+	udp, err := net.ListenUDP("udp4", &net.UDPAddr{IP: blk.IP(1), Port: 0})
 	if err != nil {
 		evid.Infra("bind GTP-U socket: %v", err)
 	}
@@ -85,6 +87,14 @@ func (w *World) Send(p int, b []byte) sworld.StepObs {
 		w.V.InjectPacket(w.PeerAddr(p), b)
 	}
 	return w.Settle()
+}
+
+// NotifyNoSettle hands a notification over without waiting (bursts: the report queue holds 128 entries, the
+// call blocks while it is full and the loop drains it concurrently); call Settle afterwards.
+func (w *World) NotifyNoSettle(genlPayload []byte) {
+	if !w.Dead {
+		w.G.VBuff().VNotify(genlPayload)
+	}
 }
 
 // Notify hands a kernel notification (genl payload) to the real buffering listener.
